@@ -68,3 +68,9 @@ Example C13_gen_example :
 Proof. vm_compute. reflexivity. Qed.
 Example C13_gen_zero : run_history 3 1 [0; 5] [] 2 [HWS 0 0] = [0; 1; 1; 1; 0; 1].
 Proof. vm_compute. reflexivity. Qed.
+
+(* the constants these theorems are about are the ones in the Go sources now (Generated/SrcParams.v, rewritten on
+   every run by harness/cmd/srcparams) *)
+Require SrcParamsOK.
+Definition C13_source_constants := (SrcParamsOK.compute_constants_v1, SrcParamsOK.compute_constants_v2, SrcParamsOK.compute_constants_v3,
+  SrcParamsOK.cube_next_digit_identities, SrcParamsOK.format_constants).
